@@ -37,6 +37,9 @@ class Subset(Harness):
             if self.variant == "mask":
                 inp["cond"] = {"kind": "mask", "mask": Arr("bool", [symx.sym_bool(f"m{i}") for i in range(n)])}
                 self.symbolic_note = "boolean mask"
+            elif self.variant == "objmask":
+                # a boolean column that went through a join or rbind is an object array of Python bools
+                inp["cond"] = {"kind": "mask", "mask": Arr("object", [symx.SymPyBool(symx.sym_bool(f"m{i}")) for i in range(n)])}
             else:
                 if self.kind == "O":
                     inp["cond"] = {"kind": self.variant, "col": "x", "value": symx.SymPyInt(symx.sym_i64("v"))}
@@ -127,7 +130,9 @@ class Subset(Harness):
         if m in ("filter", "filter_out"):
             c = inp["cond"]
             if c["kind"] == "mask":
-                sel = lambda i: c["mask"].cells[i]
+                def sel(i):
+                    m = c["mask"].cells[i]
+                    return m.e if isinstance(m, symx.SymBool) else (z3.BoolVal(m) if isinstance(m, bool) else m)
             else:
                 v = c["value"]
                 vc = as_cell(v, k) if k != "O" else (v if not isinstance(v, int) or isinstance(v, symx.SymI64) else symx.SymPyInt(v))
@@ -189,6 +194,7 @@ def harnesses(tier):
     hs.append(Prepared(Subset("unique", "U" if not quick else "T", 2))); hs.append(Prepared(Subset("drop_na", "T", 2)))
     hs.append(Subset("filter", "f", N, "mask"))
     hs.append(Subset("filter_out", "f", N, "mask"))
+    hs.append(Subset("filter", "f", N, "objmask")); hs.append(Subset("filter_out", "f", N, "objmask"))
     for m in ("slice", "slice_off", "head", "tail", "sample"):
         hs.append(Subset(m, "f", N))
         if not quick:
